@@ -118,7 +118,11 @@ def replay_group(which, stream):
 TORSION_RETRIES = [0]
 
 
-def torsion_stream(which, rng, n_torsion):
+SMALL1 = [3, 11, 10177]
+SMALL2 = [13, 23, 2713]
+
+
+def torsion_stream(which, rng, n_torsion, small=False):
     """first draws are abscissas of points whose order divides the cofactor (their cofactor multiple is the identity: the
     sampler must draw again), then an ordinary acceptable draw"""
     s = b''
@@ -129,7 +133,19 @@ def torsion_stream(which, rng, n_torsion):
         else:
             while True:
                 P = O.find_point1(rng) if which == 1 else O.find_point2(rng)
-                T = E.mul(P, R)                     # order divides the cofactor
+                if small:
+                    # a point of SMALL prime order l (l divides the cofactor): the multiplication routine that clears the cofactor then
+                    # meets accumulator = table entry, the case a "these never coincide" shortcut gets wrong
+                    ell = rng.choice(SMALL1 if which == 1 else SMALL2)
+                    H = O.H1 if which == 1 else O.H2
+                    m = H
+                    while m % ell == 0:
+                        m //= ell
+                    T = E.mul(P, m * R)                 # lies in the l-primary part; walk down to order exactly l
+                    while T is not None and E.mul(T, ell) is not None:
+                        T = E.mul(T, ell)
+                else:
+                    T = E.mul(P, R)                     # order divides the cofactor
                 if T is not None:
                     break
             x = T[0]
@@ -232,6 +248,8 @@ def worker(sh):
     if sh.index < 8:
         for which, opn in ((1, 'c.g1_random'), (2, 'c.g2_random'), (1, 'c.wkd_random_g1'), (2, 'c.wkd_random_g2')):
             s = torsion_stream(which, rng, 1 + (sh.index % 2))
+            add('%s %s' % (opn, s.hex()), 'grand', which, s)
+            s = torsion_stream(which, rng, 2, small=True)
             add('%s %s' % (opn, s.hex()), 'grand', which, s)
     for (dr, orj) in ([(0, 0), (2, 0), (0, 1), (5, 1)] if sh.index < 4 else []) + [(rng.randrange(2), 0) for _ in range(sh.pick(2, 30))]:
         s = make_stream(rng, dr, orj)
